@@ -2949,11 +2949,13 @@ class Recipe:
             # one side is rounded up by the other is rounded down by - except at a tie, and in the last digits of a float
             # when one of them holds litres). Nothing else is allowed for, however many wells and steps there are.
             noise += 1e-15 * (abs(before_substances) + abs(after_substances))  # (the sums above, in floats)
-            if step.operator == 'transfer':
+            if step.operator in ('transfer', 'remove'):
+                # (a remove step moves material to the trash: what the object holds less is what the trash holds, up to
+                # the order the two were summed in - over 384 wells that is more than a stored digit)
                 def held(what):
                     return sum(well.contents.get(substance, 0) for well in what.wells.flatten()) \
                         if isinstance(what, Plate) else what.contents.get(substance, 0)
-                one_object = step.to[0].name == step.frm[0].name
+                one_object = step.frm[0] is None or step.to[0].name == step.frm[0].name
                 moved_before = held(step.to[0]) + (0 if one_object else held(step.frm[0]))
                 moved_after = held(step.to[1]) + (0 if one_object else held(step.frm[1])) + step.trash.get(substance, 0)
                 noise += abs(moved_after - moved_before) + 1e-15 * (abs(moved_before) + abs(moved_after))
